@@ -244,7 +244,7 @@ func (w *world) write(data []int, lay layoutT) (metric string, used map[int]bool
 			Value: p.Val, Timestamp: w.base + int64(p.Slot)*10_000 + 3000}
 		idx, block, err := vbox.Route(vp, int32(lay.NumShards))
 		if err != nil {
-			vevid.Fatal("route: %v", err)
+			vevid.OpFailed("route: %v", err)
 		}
 		if idx < 0 || idx >= lay.NumShards {
 			// replica/channel_database.go Write: no channel for that shard -> the row is dropped (error only logged)
@@ -253,7 +253,7 @@ func (w *world) write(data []int, lay layoutT) (metric string, used map[int]bool
 		}
 		used[idx] = true
 		if err := w.c.Nodes[owner[idx]].WriteBlock(models.ShardID(idx), vp.Timestamp, block); err != nil {
-			vevid.Fatal("write: %v", err)
+			vevid.OpFailed("write: %v", err)
 		}
 	}
 	return metric, used
@@ -320,7 +320,7 @@ func (w *world) run(sql string, lay layoutT) *grid {
 	leaves := lay.leaves()
 	run, planErr, err := w.c.LeafResponses(sql, w.tr, leaves)
 	if err != nil {
-		vevid.Fatal("leaf run %q on %s: %v", sql, lay, err)
+		vevid.OpFailed("leaf run %q on %s: %v", sql, lay, err)
 	}
 	if planErr != nil {
 		return &grid{planErr: true, orders: [][]int{nil}, v: [][]verdict{{{Err: planErr.Error()}}}}
@@ -365,7 +365,7 @@ func (w *world) viaIntermediates(sql string, lay layoutT, want verdict, viol fun
 			}
 			tr, err := w.c.QueryViaIntermediates(sql, w.tr, leaves, nInter, order, cache)
 			if err != nil {
-				vevid.Fatal("intermediate run %q on %s: %v", sql, lay, err)
+				vevid.OpFailed("intermediate run %q on %s: %v", sql, lay, err)
 			}
 			w.rep.Evaluations++
 			var got verdict
@@ -423,7 +423,7 @@ func main() {
 	opt := &option.DatabaseOption{Intervals: option.Intervals{{Interval: timeutil.Interval(10_000), Retention: timeutil.Interval(3000 * 24 * 3600 * 1000)}}, AutoCreateNS: true}
 	c, err := vbox.OpenCluster(f.Scratch+"/eng", "db", opt, nodeNames, []models.ShardID{0, 1, 2, emptyShard})
 	if err != nil {
-		vevid.Fatal("open: %v", err)
+		vevid.OpFailed("open: %v", err)
 	}
 	defer func() {
 		c.Close()
@@ -444,7 +444,7 @@ func main() {
 		for _, h := range []string{"a", "b", "c"} {
 			idx, _, err := vbox.Route(vbox.Point{Metric: "probe", Tags: map[string]string{"host": h}, Field: "f1", Type: "sum", Value: 1, Timestamp: base}, n)
 			if err != nil {
-				vevid.Fatal("route: %v", err)
+				vevid.OpFailed("route: %v", err)
 			}
 			seen[idx] = true
 			rep.Outcome(fmt.Sprintf("route:%d:%s->%d", n, h, idx))
@@ -532,7 +532,7 @@ func (w *world) checkData(data []int, layouts []layoutT, only string) {
 		leaves := refLay.leaves()
 		run, planErr, err := w.c.LeafResponses(sql, w.tr, leaves)
 		if err != nil {
-			vevid.Fatal("reference leaf run: %v", err)
+			vevid.OpFailed("reference leaf run: %v", err)
 		}
 		var v verdict
 		if planErr != nil {
